@@ -37,6 +37,15 @@ const (
 	evSelectCommit                   // CommitSelected already CAS'd NotSelected -> Selected: evSelectAccepted unless superseded (see step)
 )
 
+// stateClosedBit is OR-ed into the state word when evClose is processed. It seals the register for
+// the rest of this supervisor's life: State() masks it out (it still reads NotConnected), while every
+// synchronous commit CAS (CommitConnected / CommitSelected / CommitSelectLost) compares against a
+// plain ConnState value and therefore FAILS on the sealed word. Without it the closed latch stopped
+// only queued EVENTS: a transport goroutine whose dial/accept completed while Close was in progress
+// could still CAS NotConnected -> NotSelected after evClose had been processed, its evTCPUp was then
+// ignored by the latch, and State() reported NotSelected for good after Close had returned.
+const stateClosedBit uint32 = 1 << 31
+
 // stateChange is one logical E37 transition, reported to the notifier as (prev -> next).
 type stateChange struct {
 	prev ConnState
@@ -178,7 +187,7 @@ func transition(cur ConnState, ev fsmEvent) (ConnState, bool) {
 
 // State returns the current logical E37 state via a lock-free atomic read.
 func (s *supervisor) State() ConnState {
-	return ConnState(s.state.Load())
+	return ConnState(s.state.Load() &^ stateClosedBit)
 }
 
 // CommitConnected performs the synchronous TCP-up commit (symmetric with CommitSelected / §7.D):
@@ -361,6 +370,10 @@ func (s *supervisor) step(ev fsmEvent) {
 	if ev == evClose {
 		// Latch closed (I2) BEFORE teardown: no event queued behind this evClose may move state again.
 		s.closed = true
+		// ... and seal the register itself, so that no synchronous commit racing this Close can move
+		// it either (see stateClosedBit). A commit that slipped in just before this store is
+		// overwritten: the connection is closing, NotConnected is the only truthful answer.
+		s.state.Store(uint32(NotConnectedState) | stateClosedBit)
 		if e := s.closeEpoch.Load(); e != nil {
 			e.teardown(s.resolveCloseTimeout())
 		}
